@@ -347,6 +347,136 @@ func Lock(site string, try func() bool, lock func()) {
 	}
 }
 
+// ---- sync.Cond, sync.Locker and sync.RWMutex under the simulator ----
+//
+// sync.Cond.Wait re-acquires its Locker with a plain Lock after the wake-up; if the holder is
+// parked at a scheduling point the woken goroutine would sleep inside a mutex, which is not a
+// durable block: the bubble could never go quiet. The three Cond operations are therefore
+// emulated while a simulation runs (FIFO waiters like the runtime's notify list; the
+// re-acquisition is a scheduling point plus try-lock polling, like Lock). An RWMutex gets
+// Go's writer preference: a goroutine that wants the write lock announces itself, and new
+// readers wait while one is announced — TryLock alone never announces anything, and the
+// classic recursive-read-lock deadlock would be invisible.
+
+var (
+	auxMu       sync.Mutex // never held across a scheduling point
+	condWaiters = map[*sync.Cond][]chan struct{}{}
+	rwPending   = map[*sync.RWMutex]int{}
+)
+
+func CondWait(site string, c *sync.Cond) {
+	s := cur.Load()
+	if s == nil {
+		c.Wait()
+		return
+	}
+	ch := make(chan struct{}, 1)
+	auxMu.Lock()
+	condWaiters[c] = append(condWaiters[c], ch)
+	auxMu.Unlock()
+	c.L.Unlock()
+	<-ch // durable: the channel was made inside the bubble
+	s.lockLocker(site+":relock", c.L)
+}
+
+func CondSignal(site string, c *sync.Cond) {
+	if cur.Load() == nil {
+		c.Signal()
+		return
+	}
+	auxMu.Lock()
+	if q := condWaiters[c]; len(q) > 0 {
+		q[0] <- struct{}{}
+		if len(q) == 1 {
+			delete(condWaiters, c)
+		} else {
+			condWaiters[c] = q[1:]
+		}
+	}
+	auxMu.Unlock()
+}
+
+func CondBroadcast(site string, c *sync.Cond) {
+	if cur.Load() == nil {
+		c.Broadcast()
+		return
+	}
+	auxMu.Lock()
+	for _, ch := range condWaiters[c] {
+		ch <- struct{}{}
+	}
+	delete(condWaiters, c)
+	auxMu.Unlock()
+}
+
+// LockLocker is what `l.Lock()` on a sync.Locker value becomes.
+func LockLocker(site string, l sync.Locker) {
+	s := cur.Load()
+	if s == nil {
+		l.Lock()
+		return
+	}
+	s.lockLocker(site, l)
+}
+
+func (s *Sim) lockLocker(site string, l sync.Locker) {
+	s.yield(site, "")
+	switch m := l.(type) {
+	case *sync.RWMutex:
+		s.rwLock(site, m, true)
+	case interface{ TryLock() bool }:
+		for !m.TryLock() {
+			s.mutexContended.Add(1)
+			s.yield(site+":blocked", "")
+		}
+	default:
+		l.Lock() // (an RWMutex.RLocker(): no TryLock to poll with)
+	}
+}
+
+// RWLock is what Lock / RLock on a sync.RWMutex becomes.
+func RWLock(site string, m *sync.RWMutex, write bool) {
+	s := cur.Load()
+	if s == nil {
+		if write {
+			m.Lock()
+		} else {
+			m.RLock()
+		}
+		return
+	}
+	s.yield(site, "")
+	s.rwLock(site, m, write)
+}
+
+func (s *Sim) rwLock(site string, m *sync.RWMutex, write bool) {
+	if write {
+		auxMu.Lock()
+		rwPending[m]++
+		auxMu.Unlock()
+		for !m.TryLock() {
+			s.mutexContended.Add(1)
+			s.yield(site+":blocked", "")
+		}
+		auxMu.Lock()
+		if rwPending[m]--; rwPending[m] <= 0 {
+			delete(rwPending, m)
+		}
+		auxMu.Unlock()
+		return
+	}
+	for {
+		auxMu.Lock()
+		pending := rwPending[m] > 0
+		auxMu.Unlock()
+		if !pending && m.TryRLock() {
+			return
+		}
+		s.mutexContended.Add(1)
+		s.yield(site+":blocked", "")
+	}
+}
+
 func (s *Sim) note(kind string) { s.fired[kind]++ }
 
 func (s *Sim) logStep(ev Event) {
@@ -553,6 +683,10 @@ func (s *Sim) Run(caller func()) (res Result) {
 	}
 	defer cur.Store(nil)
 	progress.Add(1)
+	auxMu.Lock()
+	clear(condWaiters) // what goroutines of earlier, aborted runs left behind
+	clear(rwPending)
+	auxMu.Unlock()
 	t0 := time.Now() // fake clock inside the bubble
 	if s.opt.Faults.Policy == PolPCT && !s.opt.Replay {
 		s.pctChange = make(map[int]bool)
